@@ -267,6 +267,14 @@ def rule_shape(prog, rep):
     compare(rep, "C08.shape", f"{m.relpath}:{fn.lineno}", "merge_cond_shapes:value",
             Interp(prog).eval_function("flowjax.utils.merge_cond_shapes", a0), eval_ref_function(prog, m, src, a0),
             "merged condition shape")
+    # declared shapes / framing quantities of the conditioner-based layers and of Vmap (and its axis helpers)
+    from .conform import conform_function, conform_init
+    from .ctor_refs import FUNCS, INITS
+    for q, (argn, kwn, src, fields, noin) in INITS.items():
+        conform_init(prog, rep, "C08.shape", q, argn, kwn, src, fields, no_inline=noin)
+    for q, (argn, src, what) in FUNCS.items():
+        noin = {"flowjax.bijections.jax_transforms._resolve_vmapped_axes"} if q.endswith("_infer_axis_size_from_params") else None
+        conform_function(prog, rep, "C08.shape", q, argn, src, what, no_inline=noin)
     for q, (argnames, src, fields) in CTOR_REFS.items():
         c = prog.cls(q)
         args = [("sym", a) for a in argnames]
